@@ -90,7 +90,11 @@ def _pairs_for_setting(draw):
     else:
         targ, tkind, _ = draw(gc.spell(text))
     barg, bkind, _ = draw(gc.spell(bg, allow_translucent=False))
-    return {"text": targ, "bg": barg, "large": large, "very": very, "mode": mode, "tkind": tkind, "bkind": bkind, "meta": meta}
+    case = {"text": targ, "bg": barg, "large": large, "very": very, "mode": mode, "tkind": tkind, "bkind": bkind, "meta": meta}
+    w = draw(optim.warm())
+    if w:
+        case["warm"] = w
+    return case
 
 
 def subchecks(tier):
